@@ -97,6 +97,7 @@ type lemma struct {
 	Statement *lsx
 	Pattern   *lsx
 	Opaque    []string // defined functions treated as uninterpreted in this lemma's own proof
+	Uses      []string // earlier lemmas of the library this lemma's proof may use (none by default)
 	libIndex  int // position among the library's forms
 }
 
@@ -124,6 +125,10 @@ func parseLemma(form string) (*lemma, error) {
 			l.Statement = v
 		case ":pattern":
 			l.Pattern = v
+		case ":uses":
+			for _, p := range v.list {
+				l.Uses = append(l.Uses, p.atom)
+			}
 		case ":opaque":
 			for _, p := range v.list {
 				l.Opaque = append(l.Opaque, p.atom)
@@ -181,6 +186,7 @@ func (e *Engine) lemmaObligations(libKey string) []*Obligation {
 	forms := e.specLibRaw[libKey]
 	var obls []*Obligation
 	var prefix []string
+	lemmaOf := map[string]string{} // axiom line -> lemma name
 	prefix = append(prefix, e.prelude(Theory{bv: strings.HasSuffix(libKey, ".bv"), named32: !strings.HasSuffix(libKey, ".bv")}, nil)...)
 	for _, form := range forms {
 		if !strings.HasPrefix(form, "(lemma") {
@@ -196,6 +202,9 @@ func (e *Engine) lemmaObligations(libKey string) []*Obligation {
 		mkOb := func(kind string, extra []string, goal string) {
 			lines := make([]string, 0, len(prefix)+8)
 			for _, pl := range prefix {
+				if ln, isLemma := lemmaOf[pl]; isLemma && !hasProp(l.Uses, ln) {
+					continue // an earlier lemma is given to this proof only on request (:uses)
+				}
 				if strings.HasPrefix(pl, "(define-fun ") {
 					if name, sig, ok := parseFunSig(pl); ok && hasProp(l.Opaque, name) {
 						args := make([]string, len(sig.Args))
@@ -225,6 +234,7 @@ func (e *Engine) lemmaObligations(libKey string) []*Obligation {
 				fmt.Sprintf("(let ((%s (+ %s 1))) %s)", k, k, st))
 		}
 		prefix = append(prefix, l.axiom())
+		lemmaOf[l.axiom()] = l.Name
 	}
 	// the whole library (definitions, axioms, lemmas as axioms) must not be refutable
 	lines := append([]string{}, prefix...)
